@@ -93,3 +93,132 @@ Proof.
   destruct a as [[[ca sa] ea] xa], b as [[[cb sb] eb] xb]. unfold region_leb, row_region. cbn.
   apply rkey_leb_spec.
 Qed.
+
+(* ------------------------------------------------------------------------ *)
+(* extension: the order as a total preorder, the ranking table, decimal names,
+   uniqueness of the stable sort                                              *)
+From CNV Require Import Model.Decimal Proofs.FormatsLib.
+From CNV Require Gen.Formats.
+
+Definition name_leb (a b : string) : bool := ckey_leb (chrom_key a) (chrom_key b).
+
+Lemma ckey_ltb_iff a b : ckey_ltb a b = true <-> ckey_leb a b = true /\ ckey_leb b a = false.
+Proof.
+  split.
+  - intros H. split; [now apply ckey_ltb_leb | now apply ckey_ltb_not_leb].
+  - intros [_ H]. unfold ckey_leb in H. unfold ckey_ltb.
+    destruct ckey_compare_good as (_ & An & _ & _). rewrite (An a b).
+    destruct (ckey_compare b a); try discriminate. reflexivity.
+Qed.
+
+(* chromosome names are totally pre-ordered by their key; two names are tied exactly when
+   their keys are equal (chr1 / Chr1 / 1 / 01) *)
+Lemma name_preorder :
+  (forall a, name_leb a a = true) /\
+  (forall a b c, name_leb a b = true -> name_leb b c = true -> name_leb a c = true) /\
+  (forall a b, name_leb a b = true \/ name_leb b a = true) /\
+  (forall a b, name_leb a b = true /\ name_leb b a = true <-> chrom_key a = chrom_key b) /\
+  (forall a b, key_lt a b <-> name_leb a b = true /\ name_leb b a = false).
+Proof.
+  unfold name_leb, key_lt. split; [|split; [|split; [|split]]].
+  - intros a. apply ckey_leb_refl.
+  - intros a b c. apply ckey_leb_trans.
+  - intros a b. apply ckey_leb_total.
+  - intros a b. split; [intros [H1 H2]; now apply ckey_leb_antisym | intros ->; split; apply ckey_leb_refl].
+  - intros a b. apply ckey_ltb_iff.
+Qed.
+
+(* rows: (key, start, end) lexicographically is a total preorder whose ties are the rows
+   with the same key, start and end *)
+Lemma row_preorder :
+  (forall a : row, region_leb row_region a a = true) /\
+  (forall a b c : row, region_leb row_region a b = true -> region_leb row_region b c = true ->
+                       region_leb row_region a c = true) /\
+  (forall a b : row, region_leb row_region a b = true \/ region_leb row_region b a = true) /\
+  (forall a b : row, region_leb row_region a b = true /\ region_leb row_region b a = true
+                     <-> rkey_of (row_region a) = rkey_of (row_region b)).
+Proof.
+  split; [|split; [|split]].
+  - intros a. apply region_leb_refl.
+  - intros a b c. apply region_leb_trans.
+  - intros a b. apply region_leb_total.
+  - intros a b. rewrite <- (equivb_region_same_key row_region a b). unfold equivb.
+    now rewrite andb_true_iff.
+Qed.
+
+(* the ranking table of sorter_chrom, per class of name (prefix stripped) *)
+Lemma ranking_table :
+  (forall cs, has_chr_prefix cs = false -> chrom_key_chars cs = key_body cs) /\
+  (forall a b c cs, lower [a; b; c] = chr_prefix -> chrom_key_chars (a :: b :: c :: cs) = key_body cs) /\
+  (forall ds, forallb is_digit ds = true -> key_body ds = (digits_val ds, EmptyString)) /\
+  key_body ["X"%char] = (1000, "X"%string) /\ key_body ["Y"%char] = (1000, "Y"%string) /\
+  (forall ds c, forallb is_digit ds = true -> is_digit c = false -> is_XY (ds ++ [c]) = false ->
+     key_body (ds ++ [c]) = (2000 + digits_val ds, unchars [c])) /\
+  (forall ds c c' rest, forallb is_digit ds = true -> is_digit c = false ->
+     key_body (ds ++ c :: c' :: rest) = (3000 + digits_val ds, unchars (c :: c' :: rest))) /\
+  (* the literals of skgenome/chromsort.py the table was written for *)
+  Gen.Formats.sorter_rank_xy = 1000 /\ Gen.Formats.sorter_rank_single = 2000 /\
+  Gen.Formats.sorter_rank_long = 3000 /\ Gen.Formats.sorter_xy_names = ["X"; "Y"]%string.
+Proof.
+  split; [exact chrom_key_nochr|]. split; [exact chrom_key_chr_strip|].
+  split; [exact key_body_numeric|]. split; [reflexivity|]. split; [reflexivity|].
+  split; [exact key_body_single|]. split; [exact key_body_long|]. repeat split; reflexivity.
+Qed.
+
+Lemma ranking_examples :
+  chrom_key "chr1" = (1, "")%string /\ chrom_key "2" = (2, "")%string /\ chrom_key "chr10" = (10, "")%string /\
+  chrom_key "chr22" = (22, "")%string /\ chrom_key "chrX" = (1000, "X")%string /\ chrom_key "Y" = (1000, "Y")%string /\
+  chrom_key "chrM" = (2000, "M")%string /\ chrom_key "chrMT" = (3000, "MT")%string /\
+  chrom_key "chrUn_gl000211" = (3000, "Un_gl000211")%string /\
+  chrom_key "chr1_gl000191_random" = (3001, "_gl000191_random")%string /\
+  chrom_key "GL000192.1" = (3000, "GL000192.1")%string /\ chrom_key "CHR7" = (7, "")%string /\
+  chrom_key "chrx" = (2000, "x")%string /\ chrom_key "chr" = (0, "")%string /\ chrom_key "007" = (7, "")%string.
+Proof. repeat split; reflexivity. Qed.
+
+Definition human_names : list string :=
+  ["chr1"; "chr2"; "chr3"; "chr4"; "chr5"; "chr6"; "chr7"; "chr8"; "chr9"; "chr10"; "chr11"; "chr12";
+   "chr13"; "chr14"; "chr15"; "chr16"; "chr17"; "chr18"; "chr19"; "chr20"; "chr21"; "chr22";
+   "chrX"; "chrY"; "chrM"]%string.
+
+(* the human karyotype, in any input order (here: reversed, and string-sorted), sorts to
+   1..22, X, Y, M *)
+Lemma human_order :
+  stable_sort name_leb (rev human_names) = human_names /\
+  stable_sort name_leb
+    ["chr1"; "chr10"; "chr11"; "chr12"; "chr13"; "chr14"; "chr15"; "chr16"; "chr17"; "chr18"; "chr19";
+     "chr2"; "chr20"; "chr21"; "chr22"; "chr3"; "chr4"; "chr5"; "chr6"; "chr7"; "chr8"; "chr9";
+     "chrM"; "chrX"; "chrY"]%string = human_names.
+Proof. split; vm_compute; reflexivity. Qed.
+
+Lemma print_all_digits z : 0 <= z -> all_digits (chars (print_Z z)).
+Proof. intros H. split; [apply print_nonempty | now apply print_digits]. Qed.
+
+(* names that are decimal numbers, with or without the prefix, sort by their value *)
+Lemma natural_order_decimal (p1 p2 : list ascii) a b :
+  chr_or_none p1 -> chr_or_none p2 -> 0 <= a < b ->
+  ckey_ltb (chrom_key_chars (p1 ++ chars (print_Z a))) (chrom_key_chars (p2 ++ chars (print_Z b))) = true.
+Proof.
+  intros H1 H2 Hab. apply numeric_by_value; auto; try (apply print_all_digits; lia).
+  rewrite !digits_val_print by lia. lia.
+Qed.
+
+(* the table GenomicArray.sort must return is determined: any arrangement of the rows that
+   is sorted by (key, start, end) and keeps the input order inside every tie class is the
+   model's sort *)
+Lemma sort_rows_unique (t l : list row) :
+  rows_sorted l ->
+  (forall z, filter (equivb (region_leb row_region) z) l = filter (equivb (region_leb row_region) z) t) ->
+  l = sort_rows t.
+Proof.
+  intros HS HF.
+  apply (sorted_stable_unique (region_leb row_region) (region_leb_total row_region)); auto.
+  - apply sort_rows_sorted.
+  - intros z. rewrite HF. unfold sort_rows. now rewrite sort_regions_stable.
+Qed.
+
+(* dropping rows commutes with the sort (used by readers that filter before sorting) *)
+Lemma sort_rows_filter (p : row -> bool) t : filter p (sort_rows t) = sort_rows (filter p t).
+Proof.
+  unfold sort_rows, sort_regions.
+  apply (filter_stable_sort _ (region_leb_total row_region) (region_leb_trans row_region)).
+Qed.
